@@ -636,6 +636,12 @@ class BoundsAnalysis:
                     else:
                         ne[(a_, b_)] = w
                 z.e = ne
+                if B[0] == Z:
+                    z.add(Z, x, -B[1])              # x | c >= c
+                else:
+                    lb = zz.bound(Z, B[0])
+                    if lb is not None:
+                        z.add(Z, x, lb - B[1])
                 return
         self.set_var(z, x, None)
         if A is not None and B is not None and A[0] == Z and B[0] == Z and op in ('Shl', 'Mul', 'Shr', 'BitOr', 'BitAnd') \
@@ -652,6 +658,14 @@ class BoundsAnalysis:
             if ub is not None:
                 z.add(x, A[0], A[1] + ub)
             z.add(Z, x, 0)
+            # a | b >= max(a, b): take the better of the two known lower bounds
+            for T in (A, B):
+                if T[0] == Z:
+                    z.add(Z, x, -T[1])
+                else:
+                    lb = zz.bound(Z, T[0])          # 0 - t <= lb  ->  t >= -lb
+                    if lb is not None:
+                        z.add(Z, x, lb - T[1])
             return
         if op in ('Div', 'Shr', 'BitAnd', 'Rem') and A is not None and ty in UNSIGNED_BITS:
             if op == 'Rem' and B is not None and B[0] == Z and B[1] > 0:
@@ -1047,6 +1061,8 @@ class BoundsAnalysis:
                     incmp[tb] = ncm
                     if tb not in work:
                         work.append(tb)
+        self.block_in = {bi: inst[bi] for bi in range(n) if inst[bi] is not None}
+        self.block_cmp = {bi: incmp[bi] for bi in range(n) if incmp[bi] is not None}
         # obligations in blocks the analysis found unreachable
         for bi in range(n):
             if inst[bi] is None:
@@ -1490,5 +1506,181 @@ def rule_views_total(ctx, config='dev'):
             if hb is not None and hb.promoted is None and hb.d.get('impl_adt') == R['adt'] and not hb.d.get('impl_trait'):
                 work.append(hb)
     _discharge_scope(f, r, scope, VIEWS_ASSUMED, 'the ReplaceSource content views')
+    r.check_floor()
+    return r
+
+
+# ======================================================================================================================
+# VLQ-TERMINATED: path-sensitive use of the engine (no joins inside one loop iteration)
+
+def _iteration_paths(a, start, limit=4000):
+    """acyclic paths from block `start` through the CFG of a.b, each as a list of (block, out-edge target or None); a path ends at a
+    return block, at a block that would re-enter `start` (a back edge: target == start), or when a block repeats"""
+    b = a.b
+    out = []
+    stack = [(start, [])]
+    while stack:
+        bi, path = stack.pop()
+        if len(out) > limit:
+            raise RuntimeError('too many paths in %s' % b.path)
+        succs = b.succs(bi)
+        if not succs:
+            out.append(path + [(bi, None)])
+            continue
+        for s_ in succs:
+            if s_ == start or any(p[0] == s_ for p in path) or s_ == bi:
+                out.append(path + [(bi, s_)])
+            else:
+                stack.append((s_, path + [(bi, s_)]))
+    return out
+
+
+def _replay(a, z0, cmp0, path, on_event):
+    """run the transfer functions along one path without joining; on_event(z, term, point) is called at every terminator;
+    returns False when the path is infeasible under the facts"""
+    b = a.b
+    z = z0.copy()
+    a.cmp = dict(cmp0)
+    for bi, nxt in path:
+        for si, s in enumerate(b.stmts(bi)):
+            a.stmt(z, s, (bi, si))
+        t = b.term(bi)
+        pt = (bi, len(b.stmts(bi)))
+        on_event(z, t, pt)
+        if t['k'] == 'switch' and nxt is not None:
+            d = t['d']
+            info = a.cmp.get(d['p']['l']) if d['k'] in ('copy', 'move') and not d['p']['pr'] else None
+            isbool = t.get('dty') == 'bool'
+            vals = [v for v, tb in t['targets'] if tb == nxt]
+            dv = a.operand(d)
+            if isbool and info is not None:
+                if vals:
+                    a.refine(z, info, vals[0] != 0)
+                else:
+                    tv = [v for v, _ in t['targets']]
+                    if len(tv) == 1:
+                        a.refine(z, info, tv[0] == 0)
+                a.shr_tighten(z, info, bi)
+            elif not isbool and dv is not None and vals:
+                z.add(dv[0], Z, vals[0] - dv[1])
+                z.add(Z, dv[0], dv[1] - vals[0])
+        elif t['k'] == 'call' and nxt is not None:
+            a.call(z, t, pt)
+        elif t['k'] == 'assert' and nxt is not None:
+            m = t.get('msg')
+            if isinstance(m, dict) and m.get('kind') == 'BoundsCheck':
+                I, L = a.operand(m['index']), a.operand(m['len'])
+                if I is not None and L is not None:
+                    z.add(I[0], L[0], L[1] - I[1] - 1)
+        if not z.consistent():
+            return False
+    return True
+
+
+def rule_vlq_terminated(ctx, config='dev'):
+    """continuation-bit discipline of the VLQ writer"""
+    from .. import anchors
+    from .codec import tables
+    f = ctx.facts(config)
+    r = RuleResult('VLQ-TERMINATED', 'the VLQ writer ends every number it writes: along every path of one loop iteration (analysed without '
+                                     'joins, from the loop-head facts) a base64 digit that can be the last one written before the function '
+                                     'returns is below 32 (continuation bit clear) and every digit that is followed by another one is at '
+                                     'least 32 (continuation bit set)')
+    r.floor = 2
+    tr = anchors.trait_path(f, 'MappingsEncoder')
+    roots = [b for b in f.body_list if b.promoted is None and b.d['kind'] != 'Closure' and b.d.get('impl_trait') == tr and b.name == 'encode']
+    writers = []
+    seen_fns, frontier = set(), list(roots)
+    for _ in range(3):
+        nxt = []
+        for fn in frontier:
+            for pt, t in fn.calls():
+                c = t.get('callee')
+                hb = f.body(c.get('resolved') or c['path']) if c else None
+                if hb is None or hb.d['kind'] == 'Closure' or hb.key in seen_fns:
+                    continue
+                seen_fns.add(hb.key)
+                nxt.append(hb)
+                # a digit writer indexes a constant table (MIR bounds check) and pushes the byte
+                if any(hb.term(i)['k'] == 'assert' and isinstance(hb.term(i).get('msg'), dict) and hb.term(i)['msg'].get('kind') == 'BoundsCheck'
+                       for i in range(len(hb.blocks))) and hb not in writers:
+                    writers.append(hb)
+        frontier = nxt
+    if not writers:
+        raise anchors.AnchorMissing('no table-indexing digit writer called by the encoders')
+    from .panics import loops
+    for w in writers:
+        a = BoundsAnalysis(f, w)
+        a.run()
+        heads = sorted(loops(w).keys())
+        starts = [0] + heads
+        zero_event_return = False
+        finals, inner = [], []
+        for st in starts:
+            z0 = a.block_in.get(st)
+            if z0 is None:
+                continue
+            for path in _iteration_paths(a, st):
+                events = []
+
+                def on_event(z, t, pt, events=events):
+                    m = t.get('msg') if t['k'] == 'assert' else None
+                    if isinstance(m, dict) and m.get('kind') == 'BoundsCheck':
+                        I = a.operand(m['index'])
+                        zz = z.copy()
+                        ub = None if I is None else zz.bound(I[0], Z)
+                        lb = None if I is None else zz.bound(Z, I[0])
+                        events.append((pt, t.get('s', ''), None if ub is None else ub + I[1], None if lb is None else -lb + I[1]))
+                # the path must not run through another loop head other than its own start (those are separate starts)
+                feasible = _replay(a, z0, a.block_cmp.get(st, {}), path, on_event)
+                if not feasible:
+                    continue
+                last_blk, nxt = path[-1]
+                ends_at_return = nxt is None and w.term(last_blk)['k'] == 'return'
+                reenters = nxt is not None
+                if ends_at_return:
+                    if not events and st != 0:
+                        zero_event_return = True
+                    if events:
+                        finals.append(events[-1])
+                        inner += events[:-1]
+                elif reenters:
+                    inner += [(e, True) for e in events][:0]
+                    # digits written in an iteration that continues: all followed by more digits unless a later iteration can
+                    # return without writing (checked below)
+                    finals_if_zero = events[-1:] if events else []
+                    inner += events[:-1]
+                    if finals_if_zero:
+                        inner.append(('maybe-last',) + finals_if_zero[0])
+        seen = set()
+        for e in finals:
+            if ('F', e[0], e[2]) in seen:
+                continue
+            seen.add(('F', e[0], e[2]))
+            ok = e[2] is not None and e[2] <= 31
+            r.site('%s: a digit that can be the last one is < 32 (bound %s)' % (w.path, e[2]), e[1], 'ok' if ok else 'violation')
+            if not ok:
+                r.violation('%s:last-digit' % w.path, e[1], w.path,
+                            'the digit written last before the writer returns is not bounded below 32 (upper bound %s): its continuation '
+                            'bit may be set, so a reader runs into the next field or off the end' % e[2])
+        for e in inner:
+            maybe_last = e[0] == 'maybe-last'
+            if maybe_last:
+                e = e[1:]
+            key = ('I', e[0], maybe_last)
+            if key in seen:
+                continue
+            seen.add(key)
+            if maybe_last and zero_event_return:
+                ok = e[2] is not None and e[2] <= 31
+                what = 'may be the last digit (a later iteration can return without writing) and is < 32'
+            else:
+                ok = e[3] is not None and e[3] >= 32
+                what = 'is followed by another digit and is >= 32'
+            r.site('%s: a digit that %s (bounds %s..%s)' % (w.path, what, e[3], e[2]), e[1], 'ok' if ok else 'violation')
+            if not ok:
+                r.violation('%s:continuation' % w.path, e[1], w.path,
+                            'a digit that is followed by another one is not known to carry the continuation bit (lower bound %s), or a '
+                            'digit that may be the last is not below 32: the reader splits the number differently from the writer' % e[3])
     r.check_floor()
     return r
